@@ -409,7 +409,7 @@ def c17_tables_s(draw):
 
 
 EDITS = ["add_svc", "del_svc", "proto_inplace", "add_rule", "del_rule", "rule_field_inplace", "rule_add_criterion", "rule_del_criterion", "noop",
-         "del_svc", "add_svc", "proto_inplace", "rule_field_inplace"]
+         "del_svc", "add_svc", "proto_inplace", "rule_field_inplace", "rule_field_case", "rule_field_case", "empty_tables"]
 
 
 def apply_edit(draw, services, rules):
@@ -440,6 +440,19 @@ def apply_edit(draw, services, rules):
                 r[1][k] = draw(st.sampled_from([v for v in RULE_FIELDS[k] if v != r[1][k]]))
         else:
             kind = "rule_add_criterion"
+    if kind == "rule_field_case" and rules:
+        # an edit that changes nothing but letter case (class names and globs are case-sensitive)
+        r = rules[draw(st.integers(0, len(rules) - 1))]
+        ks = [k for k in r[1] if k in ("class", "hostname", "username", "account") and r[1][k].swapcase() != r[1][k]]
+        if ks:
+            k = draw(st.sampled_from(sorted(ks)))
+            r[1][k] = r[1][k].swapcase() if draw(st.booleans()) else r[1][k].capitalize()
+    elif kind == "empty_tables":
+        # the sections stay in the file but become completely empty
+        if draw(st.booleans()):
+            services = []
+        else:
+            rules = []
     if kind == "rule_add_criterion" and rules:
         r = rules[draw(st.integers(0, len(rules) - 1))]
         free = [k for k in RULE_FIELDS if k not in r[1]]
@@ -479,9 +492,9 @@ def c17_s(draw, pid, tier, opts=None):
     for ci in range(draw(st.integers(1, 3))):
         cid = 50 + ci
         ip = draw(st.sampled_from(["10.1.2.3", "10.200.0.1", "127.0.0.1", "2001:db8:0:0:0:0:0:1", "192.168.1.1"]))
-        host = draw(st.sampled_from(["a.example.org", "trusted.net", "x.y", ""]))
-        ident = draw(st.sampled_from(["joe", "~joe", "oper", "~web"]))
-        acct = draw(st.sampled_from(["alice", "bob", None]))
+        host = draw(st.sampled_from(["a.example.org", "trusted.net", "x.y", "", "A.EXAMPLE.ORG", "Trusted.net"]))
+        ident = draw(st.sampled_from(["joe", "~joe", "oper", "~web", "JOE", "Oper"]))
+        acct = draw(st.sampled_from(["alice", "bob", None, "ALICE", "Alice"]))
         sc = [["C", cid, ip, 2000 + ci], ["N", cid, host] if host else ["d", cid], ["u", cid, ident], ["n", cid, "Probe%d" % ci],
               ["U", cid, "claimed", "probe client"]]
         if acct:
